@@ -28,6 +28,10 @@ def setup() -> None:
     if sorted(own.values()) != sorted(eng_pool.OWN):
         raise RuntimeError(f"pool definitions not found: {sorted(set(eng_pool.OWN) - set(own.values()))}")
     _S.update(mod=mod, own=own, pt=mod.Pt.id)
+    import gc
+
+    gc.collect()
+    gc.freeze()  # fewer copy-on-write faults in the forked sessions
 
 
 def name_of(did) -> str | None:
